@@ -213,10 +213,10 @@ class SolverWrapper:
                     if hasattr(self.solver, "changeColsLower"):
                         self.solver.changeColsLower(len(idxs), idxs, lbs)
                     else:
-                        # As a conservative fallback, raise LB via changeColsBounds using current UBs fetched via getCols
-                        status, nret, lowers, uppers, costs, nnz = self.solver.getCols(len(idxs), idxs)
-                        # Use returned uppers in the same order as idxs
-                        current_ubs = uppers.astype(np.float64, copy=False)
+                        # As a conservative fallback, raise LB via changeColsBounds keeping the current UBs.
+                        # (highspy's getCols returns (status, n, costs, lowers, uppers, nnz) and only accepts
+                        # increasing index sets, so we read the upper bounds from the LP, in the order of idxs.)
+                        current_ubs = np.asarray(self.solver.getLp().col_upper_, dtype=np.float64)[idxs]
                         self.solver.changeColsBounds(len(idxs), idxs, lbs, current_ubs)
 
         finally:
